@@ -245,7 +245,7 @@ _p('C11', ['r_offsets', 'r_sorted', 'r_gates', 'r_builder'],
    'the default location to everything it creates.',
    not_decided='numeric equality of a concrete offset with the byte position in a concrete binary (follows from the provenance '
                'discipline; not executed)')
-_p('C10', ['r_offsets', 'r_sorted'],
+_p('C10', ['r_offsets', 'r_sorted', 'r_addr'],
    'A narrow, structural claim: every operator\'s input offset is recorded unconditionally at parse; output offsets are measured '
    'and rebased by code_section_start = start of the code section contents (measured, no constant); unconvertible addresses are '
    'tombstoned (DEAD_CODE) and 0/DEAD_CODE pass through; binary searches run over tables sorted on the searched key; an unsigned '
